@@ -1,0 +1,25 @@
+//go:build verif
+
+package xmath
+
+// Contracts for the deductive verifier in /verif (property C19). Only part of the build under the
+// tag `verif`. Abs is verified once per member of its type set with exact two's-complement
+// arithmetic (intwidth 64 makes int and int64 wrap at 64 bits as well).
+
+//@ func Abs
+//@   props C19
+//@   intwidth 64
+//@   panics when x == minval(x)
+//@   ensures result >= 0 && (x >= 0 ==> result == x) && (x < 0 ==> result == -x)
+
+//@ func Min
+//@   props C19
+//@   ensures (a < b ==> result == a) && (!(a < b) ==> result == b || result == a) && (result == a || result == b) && !(a < result) && !(b < result)
+
+//@ func Max
+//@   props C19
+//@   ensures (result == a || result == b) && !(result < a) && !(result < b)
+
+//@ func Clamp
+//@   props C19
+//@   ensures (x < min ==> result == min) && (!(x < min) && max < x ==> result == max) && (!(x < min) && !(max < x) ==> result == x)
